@@ -67,8 +67,8 @@ P("C10", "model_checking", kani={"timeout": "600s", "compile_clause": True}, rac
   bounded="every operator with logging callbacks: exact callback trace == documented chain's trace; move-only Tok programs: live()==0 after the result is dropped; block operands inside wrappers evaluated once",
   not_decided="programs outside the enumerated family")
 P("C11", "proof", kani={"timeout": "600s", "compile_clause": True}, rac=["emit"],
-  unbounded="which operators hoist (is_replaceable), operands exposed and restored in order (inner_exprs / replace_inner_exprs)",
-  bounded="placement order of hoisted definitions: exact capture/callback trace for all hoisting operators rotating over positions, n<=3, d<=3, nested wrappers, both operands of fold/try_fold")
+  unbounded="which operators hoist (is_replaceable, incl. the provided method used by ErrExpr/InitialExpr, R14), operands exposed and restored in order (inner_exprs / replace_inner_exprs); separate_block_expr itself for its three instantiations (R13 desugaring of enumerate/map/fold into a while loop with an inductive invariant): ALL block operands of one action are defined, once, in operand order, each under the name of (branch, action, operand index), and the operator is handed back over the replaced operands; generate_def_and_step_streams appends them after the earlier definitions",
+  bounded="placement of the definition stream relative to the steps: exact capture/callback trace for all hoisting operators rotating over positions, n<=3, d<=3, nested wrappers, both operands of fold/try_fold")
 
 P("C12", "model_checking", kani={"timeout": "600s", "compile_clause": True},
   bounded="n<=3, d<=3, subsets of named branches (quick: 6 masks per profile), every later step has a capture reading a name; 4 executable macro kinds",
@@ -92,7 +92,7 @@ P("C14", "model_checking", rac=["structure"],
   not_decided="operands outside the pool; split-point logic inside syn")
 
 P("C17", "proof", kani={"timeout": "1500s", "compile_clause": True},
-  unbounded="every name constructor emits prefix ++ dec(i) (++ sep ++ dec(j) ++ sep ++ dec(k)) with the pieces as they stand in the source; injectivity within a family and pairwise distinctness of all families for ALL indices (lemma_names_never_clash)",
+  unbounded="separate_block_expr names the k-th hoisted operand of action i of branch b __ew{b}_{i}_{k} (verified for all operand lists); every name constructor emits prefix ++ dec(i) (++ sep ++ dec(j) ++ sep ++ dec(k)) with the pieces as they stand in the source; injectivity within a family and pairwise distinctness of all families for ALL indices (lemma_names_never_clash)",
   bounded="12 x 12 program with block captures on every action; 11 named branches with handler; nesting of the 4 executable kinds to depth 3 inside operands, captures and handlers",
   not_decided="identifier literals inside quote! bodies vs user identifiers (macro hygiene); spawn kinds")
 
